@@ -114,3 +114,26 @@ adss_stubs! { #[kani::unwind(10)] fn probe_one_share_bytes() {
     assert!(sa.len() == 122);
     core::mem::forget(sa);
 } }
+
+/// wire round trip and layout of an honestly generated share:
+/// A(4 LE) | len(4 LE) x(24) y(24) | len C | len D | J(64), and decode(encode(v)) == v
+fn honest_roundtrip(ml: usize, rl: usize, t: u32) {
+    let m: [u8; 8] = kani::any();
+    let r: [u8; 8] = kani::any();
+    ro_reset();
+    let sh = adss::Commune::new(t, m[..ml].to_vec(), r[..rl].to_vec(), None).share().unwrap();
+    let e = sh.to_bytes();
+    let n = 4 + 4 + 48 + 4 + ml + 4 + rl + 64;
+    assert!(e.len() == n, "encoded length");
+    assert!(u32::from_le_bytes([e[0], e[1], e[2], e[3]]) == t, "4-byte little-endian threshold");
+    assert!(u32::from_le_bytes([e[4], e[5], e[6], e[7]]) == 48, "Shamir chunk: x and one y, 24 bytes each");
+    assert!(u32::from_le_bytes([e[56], e[57], e[58], e[59]]) as usize == ml, "ciphertext length prefix");
+    assert!(u32::from_le_bytes([e[60 + ml], e[61 + ml], e[62 + ml], e[63 + ml]]) as usize == rl, "coins length prefix");
+    let back = adss::Share::from_bytes(&e[..]);
+    assert!(back.is_some(), "the encoding decodes");
+    assert!(back.as_ref().unwrap() == &sh, "decode(encode(v)) == v");
+    kani::cover!(true, "reached");
+    core::mem::forget((sh, e, back));
+}
+adss_stubs! { #[kani::unwind(5)] fn c08_honest_roundtrip_1_1() { honest_roundtrip(1, 1, 1) } }
+adss_stubs! { #[kani::unwind(5)] fn c08_honest_roundtrip_4_0() { honest_roundtrip(4, 0, 2) } }
